@@ -47,6 +47,7 @@ class Model(object):
         else:
             s = set(tuple(a) for a in accepted)
             self.acc = lambda p: tuple(p) in s
+        self.visited = []  # every in-scope position (path accepted, at/below the apex), post-order
         self.leaves = []
         self.ops = []  # post-order list of live non-leaf tiles at/below the apex
         self.live = set()
@@ -72,6 +73,7 @@ class Model(object):
     def _rec(self, p):
         """returns True iff p is live; assumes the path to p is accepted"""
         if p[0] == self.depth:
+            self.visited.append(p)
             self.leaves.append(p)
             self.live.add(p)
             return True
@@ -79,6 +81,7 @@ class Model(object):
         for c in children(p):
             if self.acc(c) and self._rec(c):
                 lc.append(c)
+        self.visited.append(p)
         if lc:
             self.live.add(p)
             self.live_children[p] = lc
